@@ -135,6 +135,18 @@ def _argnames(a):
 
 
 def _has_yield(fnode):
+    # memoised on the AST node: a real function is wrapped anew at every call
+    r = getattr(fnode, "_pyvc_has_yield", None)
+    if r is None:
+        r = _has_yield_scan(fnode)
+        try:
+            fnode._pyvc_has_yield = r
+        except Exception:
+            pass
+    return r
+
+
+def _has_yield_scan(fnode):
     stack = list(fnode.body) if isinstance(fnode, ast.FunctionDef) else [fnode.body]
     while stack:
         n = stack.pop()
